@@ -443,8 +443,9 @@ class MinFlowDecomp(pathmodel.AbstractPathModelDAG): # Note that we inherit from
             min_gen_set_lowerbound = len(self._generating_set)
             utils.logger.info(f"{__name__}: found a min gen set solution with {min_gen_set_lowerbound} elements ({self._generating_set})")
         else:
+            # No generating set was found (infeasible range or inconclusive solver run):
+            # this lower bound is simply not available (the caller handles `None`).
             utils.logger.info(f"{__name__}: did NOT find a min gen set solution")
-            exit(0)
         
         self.solve_statistics["min_gen_set_solve_time"] = time.perf_counter() - min_gen_set_start_time
         
